@@ -29,14 +29,15 @@ Cat(x, y)     == <<"cat", x, y>>
 Alt(x, y)     == <<"alt", x, y>>
 Rep(x, lo, hi) == <<"rep", x, lo, hi>>                             \* hi = 99 : unbounded
 Look          == <<"look">>
+Empty         == <<"empty">>                                       \* the empty regex, e.g. a branch of (|x)
 Inf == 99
 
 Atoms == {Lit(<<"a">>), Lit(<<"a", "b">>), Lit(<<"e">>), Lit(<<"e", "a">>),
-          Cls(<<"a", "b">>), Cls(<<"a", "e">>), Cls(<<"a", "b", "e">>), Look}
+          Cls(<<"a", "b">>), Cls(<<"a", "e">>), Cls(<<"a", "b", "e">>), Look, Empty}
 Bounds == {<<0, Inf>>, <<1, Inf>>, <<0, 1>>, <<2, 2>>, <<1, 3>>, <<2, Inf>>, <<0, 0>>, <<3, 3>>}
 
 Level1 == {Cat(x, y) : x \in Atoms, y \in Atoms} \cup {Alt(x, y) : x \in Atoms, y \in Atoms}
-          \cup {Rep(x, b[1], b[2]) : x \in Atoms \ {Look}, b \in Bounds}
+          \cup {Rep(x, b[1], b[2]) : x \in Atoms \ {Look, Empty}, b \in Bounds}
 Level2 == {Rep(x, b[1], b[2]) : x \in Level1, b \in Bounds}
           \cup {Cat(x, y) : x \in Level1, y \in Atoms} \cup {Cat(x, y) : x \in Atoms, y \in Level1}
           \cup {Alt(x, y) : x \in Level1, y \in Atoms} \cup {Alt(x, y) : x \in Atoms, y \in Level1}
@@ -55,6 +56,7 @@ Complexity(r) ==
     [] T(r) = "alt"  -> Min2(Complexity(r[2]), Complexity(r[3]))
     [] T(r) = "rep"  -> r[3] * Complexity(r[2])
     [] T(r) = "look" -> 0
+    [] T(r) = "empty" -> 0
 
 RECURSIVE Matches(_, _), MatchRep(_, _, _, _)
 Matches(r, w) ==
@@ -64,6 +66,7 @@ Matches(r, w) ==
     [] T(r) = "alt"  -> Matches(r[2], w) \/ Matches(r[3], w)
     [] T(r) = "rep"  -> MatchRep(r[2], w, r[3], r[4])
     [] T(r) = "look" -> w = <<>>          \* an assertion consumes nothing (its truth is over-approximated)
+    [] T(r) = "empty" -> w = <<>>
 MatchRep(x, w, lo, hi) ==
   \/ (lo = 0 /\ w = <<>>)
   \/ (lo > 0 /\ hi > 0 /\ Matches(x, <<>>) /\ MatchRep(x, w, lo - 1, IF hi = Inf THEN Inf ELSE hi - 1))
